@@ -191,13 +191,34 @@ def uncovered (gen : List Entry) (cov : List Cover) : List Entry :=
     if cov.any (sameKey e) then accounted cov e < e.2.2.2
     else accountedWild cov e < looseTotal gen cov e
 
-/-- `pre` is a prefix of `s` (on character lists, so that it reduces by `decide`). -/
-def hasPrefix (pre s : String) : Bool := pre.toList.isPrefixOf s.toList
-
 /-- Kinds that only exist because of `unsafe`. -/
 def unsafeKinds : List String := ["unsafe_block", "unsafe_fn", "unsafe_impl", "unsafe_call", "unsafe_deref", "unchecked_call"]
 
 def isUnsafeKind (e : Entry) : Bool := unsafeKinds.contains e.2.2.1
+
+/-- All sites of `e`'s file and kind in `gen`. -/
+def fileKindTotal (gen : List Entry) (e : Entry) : Nat :=
+  (gen.filter fun g => g.1 == e.1 && g.2.2.1 == e.2.2.1).foldl (fun n g => n + g.2.2.2) 0
+
+/-- All sites of `e`'s file and kind the accounts of `cov` speak for. -/
+def fileKindAccounted (cov : List Cover) (e : Entry) : Nat :=
+  (cov.filter fun c => c.1 == e.1 && c.2.2.1 == e.2.2.1).foldl (fun n c => n + c.2.2.2.1) 0
+
+/-- `uncovered`, except that a panic-capable site which only MOVED between
+functions of one file (a helper extracted or inlined, a function renamed or
+split — the commonest harmless rewrite) is not reported: an entry the strict
+rule rejects is reported only if its file now has MORE sites of that kind than
+all accounts of that file and kind together.  A new site, or a checked access
+turned into an unchecked one, still has no account.  What this lets through
+that the strict rule would stop is an exchange — one site of a kind removed and
+another of the same kind added in the same file — which is left to the
+correspondences.  Sites that exist because of `unsafe` keep the strict,
+per-function rule. -/
+def uncoveredModuloMoves (gen : List Entry) (cov : List Cover) : List Entry :=
+  (uncovered gen cov).filter fun e => isUnsafeKind e || fileKindAccounted cov e < fileKindTotal gen e
+
+/-- `pre` is a prefix of `s` (on character lists, so that it reduces by `decide`). -/
+def hasPrefix (pre s : String) : Bool := pre.toList.isPrefixOf s.toList
 
 /-- The accounts accepted for an unsafe site: the precondition theorems and the
 `delegated:` tags (`Props/C17.lean` checks that the list contains nothing else). -/
